@@ -32,9 +32,14 @@ pub async fn on_range_formatting_handler(
 ) -> Option<Vec<TextEdit>> {
     let uri = params.text_document.uri;
     let request_range = params.range;
+    // Lock order: workspace_manager before analysis (released before analysis is taken).
+    let client_id = context
+        .workspace_manager()
+        .read()
+        .await
+        .client_config
+        .client_id;
     let analysis = context.analysis().read().await;
-    let workspace_manager = context.workspace_manager().read().await;
-    let client_id = workspace_manager.client_config.client_id;
     let file_id = analysis.get_file_id(&uri)?;
     let emmyrc = analysis.get_emmyrc();
     let document = analysis
